@@ -152,6 +152,10 @@ def fixed_cases(tier):
         {**base, "expr": ["cls", "Kallen", [edw, [*edw[:3], {"phsp_factor": "chew_mandelstam_s_wave", "name": "N"}], ["sym", "x"]], {}]},
         {**base, "expr": edw, "pair": {"op": "attr", "i": 0, "j": 1}},
         {**base, "expr": edw, "pair": {"op": "attr", "i": 0, "j": 3}},
+        # a direct argument of a class with non-SymPy attributes replaced by zero (falsy in sympy) with subs
+        {**base, "expr": edw, "mode": "subs", "subs": [{"key": 0, "how": "number", "i": 0, "j": 5}]},
+        {**base, "expr": [*edw[:2], [*edw[2][:5], ["lsym", "L"], edw[2][6]], edw[3]], "mode": "subs",
+         "subs": [{"key": 4, "how": "number", "i": 0, "j": 0}]},
         # xreplace with an attribute value as key: alone / beside an absent symbol (selfkey 1 above) / a present one
         {**base, "expr": edw, "selfkey": 0},
         {**base, "expr": edw, "selfkey": 2},
